@@ -2,7 +2,7 @@
    implementation's outputs). *)
 From Coq Require Import NArith List Bool String.
 From DBG Require Import Interop.Val Spec.Dna Spec.GraphIndex Packed.ExtsModel Algo.Compress Algo.GraphModel
-  Algo.Recompress Algo.IsCompressed Check.RecompCheck Check.RecompLooseCheck Check.RecompOrder.
+  Algo.Recompress Algo.IsCompressed Algo.CleanGraph Check.RecompCheck Check.RecompLooseCheck Check.RecompOrder.
 Import ListNotations.
 Open Scope N_scope.
 
@@ -72,6 +72,11 @@ Definition recomp_ops : list (string * handler) :=
         | Some s, Some G => Some (ofbool (match compress_graph rpay rpay_reduce_sum (rpay_join 1) (N.to_nat k) s G None with
                                           | Some _ => true | None => false end))
         | _, _ => None end | _ => None end);
+    (* CleanGraph::find_bad_nodes with the predicate "node shorter than thr bases" *)
+    ("r.find_bad_nodes"%string, fun a => match a with [VN thr; g] =>
+        match rv_graph g with
+        | Some G => Some (VL (map ofnat (find_bad_nodes rpay (fun n => Nat.ltb (length (fst (fst n))) (N.to_nat thr)) G)))
+        | None => None end | _ => None end);
     ("chk.c09.payload_order"%string, fun a => match a with [VN k; st; g; o] =>
         match vbool st, rv_graph g, rv_graph o with
         | Some s, Some G, Some Og => Some (ofbool (chk_payload_order (N.to_nat k) s G Og)) | _, _, _ => None end | _ => None end);
